@@ -544,6 +544,18 @@ class CallMixin:
             return T0
         from . import solve
 
+        # first try with the entry assumptions only (shared by every path): cacheable
+        cache = self.__dict__.setdefault("_nt_cache", {})
+        key = t.sexpr()
+        if key in cache:
+            if cache[key]:
+                return T0
+        else:
+            sol = solve.make_solver(getattr(self, "entry_conds", []), t == T0)
+            sol.set("rlimit", 2000000)
+            cache[key] = sol.check() == z3.unsat
+            if cache[key]:
+                return T0
         sol = solve.make_solver(p.conds, t == T0)
         sol.set("rlimit", 2000000)
         if sol.check() == z3.unsat:
